@@ -347,13 +347,14 @@ def gen_life(rng):
             s = auth[a] if (auth[a] and rng.random() < 0.8) else rng.randrange(1, 10)
             fw = 20 if rng.random() < 0.9 else rng.randrange(1, 9)
             nauth = rng.randrange(0, 9)
-            ops.append([2, a, new, s, nauth, fw])
+            tk = 2 if rng.random() < 0.6 else 6          # keypair / PDA variant of the transfer instruction
+            ops.append([tk, a, new, s, nauth, fw])
             if new in free and a in live and new != a:
                 free.remove(new)
                 live.append(new)
                 auth[new] = nauth
             if rng.random() < 0.3:
-                ops.append([2, a, rng.randrange(na), s, nauth, fw])         # try again
+                ops.append([rng.choice([2, 6]), a, rng.randrange(na), s, nauth, fw])         # try again
             if rng.random() < 0.3 and nauth:
                 ops.append([1, new, nauth])                                  # close the copy
         elif r < 0.85:
@@ -382,7 +383,7 @@ def parse_life(case, impl):
     n = t[i]
     i += 1
     ops = []
-    LEN = {1: 3, 2: 6, 3: 3, 4: 2, 5: 2}
+    LEN = {1: 3, 2: 6, 3: 3, 4: 2, 5: 2, 6: 6}
     for _ in range(n):
         ops.append(t[i:i + LEN[t[i]]])
         i += LEN[t[i]]
@@ -449,7 +450,7 @@ def oracle_life(case, impl):
             exp[a] = None
             if accts != exp:
                 return {"key": "close-side-effect", "what": "close changed something other than removing the account"}
-        elif k == 2:
+        elif k in (2, 6):
             old, new, s, nauth, fw = op[1:6]
             A = cur[old]
             if A is None or cur[new] is not None or old == new:
